@@ -4,8 +4,8 @@ from harness import cxx_run as X
 
 class C02(ProgProp):
     id = 'C02'
-    theorems = ['C02.mts_provides_in_runs_in_dispatcher', 'C02.mts_requires_out_is_queued_by_value', 'C02.by_reference_capture_dangles', 'C02.generated_post_captures_by_value', 'C02.sts_passthrough', 'C02.accessor_type', 'C02.partition']
-    proof_modules = ['DznProofs.C02']
+    theorems = ['C02.mts_provides_in_runs_in_dispatcher', 'C02.mts_requires_out_is_queued_by_value', 'C02.by_reference_capture_dangles', 'C02.generated_post_captures_by_value', 'C02.sts_passthrough', 'C02.accessor_type', 'C02.partition', 'C02.build_mts_in_event_in_dispatcher', 'C02.build_mts_requires_out_queued', 'C02.sts_port_untouched', 'C02.build_sts_port_bypasses_dispatcher']
+    proof_modules = ['DznProofs.C02', 'DznProofs.C01Gen', 'DznProofs.C02Gen']
     level_rule = ('compiled programs over every way the configuration language assigns STS/MTS (presets, explicit '
                   'sets, remaining/all/none) and both facility origins; per stimulus: dispatcher flag, posted/shell '
                   'counters, observation before/after return, values seen after the caller frame is gone, accessor '
